@@ -66,7 +66,7 @@ namespace irx {
   struct Obj
   {
     std::vector<Byte> bytes;
-    bool freed = false, heap = false, constant = false;
+    bool freed = false, heap = false, constant = false, stack = false;
     std::string name;
   };
 
